@@ -65,11 +65,13 @@ def leading_blanks(line):
     return line[:len(line) - len(line.lstrip(' \t'))]
 
 
-def make_indent(parent, layout, route, twin=False):
-    def cell(b0: int, b1: int, b2: int, nb: int, p0: int, p1: int, npi: int, i0: int, i1: int, c0: int, touch: int = 0) -> None:
+def make_indent(parent, layout, route, twin=False, reind_fixed=0):
+    def cell(b0: int, b1: int, b2: int, nb: int, p0: int, p1: int, npi: int, i0: int, i1: int, c0: int, touch: int = 0, reind: int = 0) -> None:
         assert 0 <= b0 <= 1 and 0 <= b1 <= 1 and 0 <= b2 <= 1 and 1 <= nb <= 3 and 0 <= touch <= 1
+        assert reind == reind_fixed
         assert 0 <= p0 <= 1 and 0 <= p1 <= 1 and 1 <= npi <= 2 and 0 <= i0 <= 1 and 0 <= i1 <= 2 and 0 <= c0 <= 2
         touch = pick(touch, 0, 1)
+        reind = reind_fixed
         nb = pick(nb, 1, 3)
         indent_by = ''.join(UNITS[pick(b, 0, 1)] for b in (b0, b1, b2)[:nb])
         has_p = '{P}' in PARENTS[parent][0]
@@ -93,12 +95,18 @@ def make_indent(parent, layout, route, twin=False):
                 return   # the comment was attributed elsewhere (leading/trailing of a neighbour): not this cell's layout
             if touch:      # the views are read (and cached on the model) BEFORE the indentation unit is changed
                 len(m.meta), ('zz' in m.meta), list(m.raw_meta), list(m.raw_meta_with_comments)
+            if reind:      # the parent's own indentation is changed (by value or by replacing the raw Indent node) after the views were read
+                newind = ['\t', '   '][(reind - 1) % 2]
+                if reind <= 2:
+                    m.indent = newind
+                else:
+                    m.raw_indent = M.Indent.from_value(newind)
             m.indent_by = indent_by
             own = m.indent if hasattr(m, 'indent') and PARENTS[parent][2] else ''
             items = [x for x in m.raw_meta_with_comments if isinstance(x, M.MetaItem)]
             expected = items[0].indent if items else own + indent_by
             before_lines = text_of(f).split('\n')
-            what = '%s layout=%s route=%s indent_by=%r parent indent=%r item indent=%r' % (parent, layout, route, indent_by, pind, iind)
+            what = '%s layout=%s route=%s indent_by=%r parent indent=%r item indent=%r%s%s' % (parent, layout, route, indent_by, pind, iind, ' views read first' if touch else '', (' then parent %s = %r' % ('indent' if reind <= 2 else 'raw_indent', newind)) if reind else '')
             new_line_marker = None
             if route == 'map_new':
                 m.meta['newkey'] = 'v'
@@ -163,7 +171,7 @@ def make_indent(parent, layout, route, twin=False):
             if route in ('raw_append', 'raw_insert0'):
                 check('rawkey' in m2.meta, what, 'after re-parse the raw item is not under the same parent', R(after_text))
 
-    return 'indent_%s_%s_%s%s' % (parent, layout, route, '_twin' if twin else ''), cell
+    return 'indent_%s_%s_%s%s%s' % (parent, layout, route, '_reind%d' % reind_fixed if reind_fixed else '', '_twin' if twin else ''), cell
 
 
 CELLS = {}
@@ -181,7 +189,15 @@ for _p in PARENTS:
         for _r in ROUTES:
             quick = _p in ('open', 'txn', 'posting', 'posting_last', 'custom') and not (_p == 'custom' and _r != 'map_new')
             _reg(make_indent(_p, _l, _r), {'C18': Q if quick else T}, 600, 'indent',
-                 '%s with meta layout %s, route %s: indent_by = every string of 1..3 units of {SP,TAB}, posting indent 1..2 units, 3 item / comment indents' % (_p, _l, _r), cost=30)
+                 '%s with meta layout %s, route %s: indent_by = every string of 1..3 units of {SP,TAB}, posting indent 1..2 units, 3 item / comment indents; views read before or not' % (_p, _l, _r), cost=30)
+for _p in ('posting', 'posting_last'):
+    for _l in ('none', 'one', 'comment_only'):
+        for _r in ('map_new', 'leading_comment', 'trailing_comment', 'item_leading_comment'):
+            for _re in (1, 2, 3, 4):
+                quick = _p == 'posting' and _l == 'none' and _r in ('map_new', 'leading_comment') and _re in (2, 3)
+                _reg(make_indent(_p, _l, _r, reind_fixed=_re), {'C18': Q if quick else T}, 600, 'indent/reindent',
+                     '%s with meta layout %s, route %s, after the views were read (or not) the posting\'s own indent is changed (%s): indent_by 1..3 units, posting indent 1..2 units'
+                     % (_p, _l, _r, ('indent = TAB', 'indent = 3 SP', 'raw_indent = Indent(TAB)', 'raw_indent = Indent(3 SP)')[_re - 1]), cost=30)
 _reg(make_indent('posting', 'none', 'map_new', twin=True), {'C18': Q}, 120, 'indent', 'vacuity twin', twin=True, cost=1)
 
 FILES = ['autobean_refactor/models/meta_item_internal.py', 'autobean_refactor/models/internal/value_properties.py',
